@@ -25,6 +25,8 @@ Inductive ow_shape :=
 | OwOne (s : site)            (* exactly one declared type / one explicit type argument differs *)
 | OwSeveral (n : nat)         (* several nodes differ *)
 | OwOtherSlot                 (* a type that is not a declared type / explicit type argument differs *)
+| OwErasedArgs                (* a type argument of a constructor / generic call whose type arguments are NOT explicit
+                                 (can_infer_type_args: the translators print none) differs: invisible in the text *)
 | OwNotTypes.                 (* something other than types differs *)
 
 Definition ow_classify (p p' : node) : ow_shape :=
@@ -61,6 +63,7 @@ Definition ow_classify (p p' : node) : ow_shape :=
                 | _, _ => OwOtherSlot
                 end
               else OwOtherSlot
+            else if (Nat.eqb k kNew && flag nd 0) || (Nat.eqb k kFunctionCall && flag nd 1) then OwErasedArgs
             else if Nat.eqb k kNew || Nat.eqb k kFunctionCall then
               match cs with
               | [(_, _, Some a, Some b)] =>
@@ -103,7 +106,7 @@ Definition relatedness (w : world) (lr : lang_rel) (old new : ty) : nat :=
   end.
 
 (* (shape code, node kind, relatedness, number of errors before, number of errors after)
-   shape codes: 0 none, 1 one site, 2 several, 3 other slot, 4 not only types *)
+   shape codes: 0 none, 1 one site, 2 several, 3 other slot, 4 not only types, 5 erased (non-explicit) type arguments *)
 Definition ow_report (L : lang) (lr : lang_rel) (cn : list (nat * nat)) (bclasses : ctable) (bt : btable)
            (arr : option nat) (kw : list nat) (p p' : node) : nat * nat * nat * nat * nat :=
   let w := world_of (classes_of cn p) bclasses bt arr in
@@ -114,5 +117,6 @@ Definition ow_report (L : lang) (lr : lang_rel) (cn : list (nat * nat)) (bclasse
   | OwOne s => (1, s_kind s, relatedness w lr (s_old s) (s_new s), e0, e1)
   | OwSeveral n => (2, n, 0, e0, e1)
   | OwOtherSlot => (3, 0, 0, e0, e1)
+  | OwErasedArgs => (5, 0, 0, e0, e1)
   | OwNotTypes => (4, 0, 0, e0, e1)
   end.
